@@ -34,6 +34,21 @@ func rulesC10(c *Ctx) {
 	R.Rule("R10", "the BDHKE functions are pure in their arguments: no in-place scalar / field / point operation of the curve library is applied to memory reached from a parameter (blinding factors and keys handed in stay what they were)", 4)
 	c.vocabProblems("R2")
 	c.c10ArgumentsNotMutated()
+	// the signer's wiring (shared with C02.R5 / C09.R4): key, emitted amount and id belong to one keyset
+	if ks := c.keysetsMapField("R1"); ks != "" {
+		c.signerRulesAs("R1", ks)
+	}
+	R.Rule("R11", "restore pairs each returned signature with the blinding factor of the output it was made for (shared with C19.R2/R3: the restore scan and its matching by B_)", 5)
+	{
+		sub := NewReport(c.R.Prop, c.R.Tier)
+		cc := &Ctx{P: c.P, V: c.V, R: sub, Opt: c.Opt}
+		cc.c19Restore()
+		for _, o := range sub.Obls {
+			o.Rule = strings.Replace(o.Rule, ".R2", ".R3", 1)
+			o.Key = strings.Replace(o.Key, c.R.Prop+".R2|", c.R.Prop+".R3|", 1)
+		}
+		c.adopt(sub, "R3", "R11")
+	}
 
 	// ---- R1
 	for _, f := range c.P.Funcs {
